@@ -4,6 +4,8 @@ package main
 
 import (
 	"fmt"
+	"os"
+	"strconv"
 	"sync"
 	"time"
 
@@ -93,7 +95,7 @@ func opsFor(n int, grid []int) []op {
 }
 
 // casesAt records all cases for the whole vector v (length n) and for slices / slices of slices of it.
-func casesAt(v vector.Vector, rc recipe, full bool) []vcase {
+func casesAt(v vector.Vector, rc recipe, level int) []vcase {
 	n := v.Len()
 	var out []vcase
 	apply := func(recv vector.Vector, rc recipe, kind string, grid []int) {
@@ -104,10 +106,24 @@ func casesAt(v vector.Vector, rc recipe, full bool) []vcase {
 	}
 	apply(v, rc, "whole", uniq(-1, 0, 1, n/2, n-1, n, n+1))
 	// slices: taken with in-range bounds only (as reported by Len); the requests made ON them
-	// include bounds outside the slice but inside the vector it was taken from
-	parents := [][2]int{{0, n}, {1, n - 1}, {n / 2, n}, {0, n / 2}, {n - 1, n}, {n / 3, n - n/3}}
-	if !full {
-		parents = parents[:3]
+	// include bounds outside the slice but inside the vector it was taken from.
+	// level 2: all six slices + a slice of a slice at every length; level 1: one of the six (rotating
+	// with the length) and the slice of a slice at every third length; level 0: one of three at even lengths
+	all := [][2]int{{1, n - 1}, {0, n}, {n / 2, n}, {0, n / 2}, {n - 1, n}, {n / 3, n - n/3}}
+	var parents [][2]int
+	sub2 := false
+	switch level {
+	case 2:
+		parents, sub2 = all, true
+	case 1:
+		parents, sub2 = [][2]int{all[n%6]}, n%3 == 0
+		if sub2 && n%6 != 0 {
+			parents = append(parents, all[0])
+		}
+	default:
+		if n%2 == 0 {
+			parents = [][2]int{all[(n/2)%3]}
+		}
 	}
 	seen := map[[2]int]bool{}
 	for _, p := range parents {
@@ -123,7 +139,7 @@ func casesAt(v vector.Vector, rc recipe, full bool) []vcase {
 		rs := rc
 		rs.Slices = [][2]int{p}
 		apply(s, rs, "slice", uniq(-1, 0, 1, m/2, m-1, m, m+1, m+2))
-		if p == [2]int{1, n - 1} && m >= 2 {
+		if sub2 && p == all[0] && m >= 2 {
 			if s2 := s.SubVector(1, m-1); s2 != nil {
 				m2 := s2.Len()
 				rs2 := rc
@@ -137,6 +153,9 @@ func casesAt(v vector.Vector, rc recipe, full bool) []vcase {
 
 func sweep(c *lib.Ctx, dir string) error {
 	L := c.Pick(1100, 2200)
+	if v, err := strconv.Atoi(os.Getenv("VERIF_C06_L")); err == nil && v > 0 { // development aid
+		L = v
+	}
 	c.Set("V_sweep_max_length", L)
 	up := prefill(L)
 	down := make([]vector.Vector, L+1)
@@ -147,15 +166,15 @@ func sweep(c *lib.Ctx, dir string) error {
 			return lib.Infra("Pop of a vector of length %d returned nil while building the sweep", n+1)
 		}
 	}
-	const block = 100
+	const block = 400
 	total := 0
 	for lo := 0; lo <= L; lo += block {
 		hi := min(lo+block-1, L)
 		per := make([][]vcase, hi-lo+1)
 		lib.Parallel(hi-lo+1, 8, func(k int) {
 			n := lo + k
-			cs := casesAt(up[n], recipe{N: n, Pass: "up"}, true)
-			cs = append(cs, casesAt(down[n], recipe{N: n, Pass: "down", Top: L}, false)...)
+			cs := casesAt(up[n], recipe{N: n, Pass: "up"}, c.Pick(1, 2))
+			cs = append(cs, casesAt(down[n], recipe{N: n, Pass: "down", Top: L}, c.Pick(0, 1))...)
 			per[k] = cs
 		})
 		var cases []vcase
@@ -194,8 +213,28 @@ func sweep(c *lib.Ctx, dir string) error {
 	return judgeCases(c, dir, "JudgePVector(final)", late)
 }
 
+// tcase is what TLC reads of a vcase (JudgePVector header).
+type tcase struct {
+	O      op   `json:"o"`
+	Parent []rn `json:"parent"`
+	R      res  `json:"r"`
+	It     []rn `json:"it"`
+	Len    int  `json:"len"`
+	After  []rn `json:"after"`
+	Panic  bool `json:"panic"`
+}
+
 func judgeCases(c *lib.Ctx, dir, name string, cases []vcase) error {
-	bad, err := lib.Judge(c, name, dir, "JudgePVector", cases, 8, 10*time.Minute)
+	ts := make([]tcase, len(cases))
+	for i, cs := range cases {
+		ts[i] = tcase{cs.O, cs.Parent, cs.R, cs.It, cs.Len, cs.After, cs.Panic}
+	}
+	if os.Getenv("VERIF_C06_CORRUPT") == "sweep" && len(ts) > 1000 { // self-test: the judge must reject these
+		ts[700].After = append([]rn{{5, 1}}, ts[700].After...)
+		ts[701].Len++
+		ts[702].R.Ok = !ts[702].R.Ok
+	}
+	bad, err := lib.Judge(c, name, dir, "JudgePVector", ts, 5, 10*time.Minute)
 	if err != nil {
 		return err
 	}
